@@ -216,7 +216,7 @@ OPT_GRID = [{"block": 16384, "rowset": 268435456, "checksum": True, "first_key":
 
 KNOWN_SIG = {"DupCreateLogged": "F14a", "InsertAfterDrop": "F14b", "DropRaceUnwrap": "F14c",
              "DoubleDeleteCount": "F21", "ScanAfterDrop": "F22",
-             "BuildAfterDropPanics": "F23"}
+             "BuildAfterDropPanics": "F23", "CreateBeforeDropLogged": "F35"}
 
 
 def norm_spec_results(s, prog):
@@ -358,15 +358,14 @@ def c09_configs(big):
         cfgs.append(Config("p2", ("A", "B"),
                            {"s1": [stmt("ins", "A", {7}), stmt("del", "A", {2, 7})],
                             "s2": [stmt("del", "B", {5}), stmt("sel", "A")]}, A, pk=True))
-        cfgs.append(Config("p3", ("A", "B"),
-                           {"s1": [stmt("del", "A", {1, 3})], "s2": [stmt("ins", "A", {8}), stmt("del", "B", {6})]},
-                           {"A": [{1, 2}, {3}], "B": [{4}, {5}, {6}]}, passes=2))
+        # (p3 -- three row-sets in B, two compactor passes -- is run under random gated schedules only, see
+        # c09_random_configs: enumerating its schedules does not finish within the 15 minutes TLC is given)
     return cfgs
 
 
 def c09_random_configs():
     """Programs that are only run under seeded random gated schedules in the quick tier (in the thorough tier p2
-    and p3 are also model-checked and replayed along the specification's paths): a DELETE that names rows of a
+    is also model-checked and replayed along the specification's paths): a DELETE that names rows of a
     row-set inserted while a compaction is in flight together with rows of the row-sets being compacted."""
     A = {"A": [{1, 2}, {3}], "B": [{4, 5}, {6}]}
     return [Config("p2", ("A", "B"), {"s1": [stmt("ins", "A", {7}), stmt("del", "A", {2, 7})],
